@@ -144,6 +144,8 @@ theorem load_ne_oof_aux (g : Graph) (tol : Bool) :
     · rename_i hk
       split
       · simp
+      split
+      · simp
       · simp
       · rename_i tag fields hg
         have hlt : k < g.length := getElem?_some_lt g k _ hg
@@ -420,5 +422,64 @@ theorem pageLoop_gets (g : List PNode) (checked : Bool) (descend : List Nat → 
         · simp only [List.length_cons]; omega
         · have := ih (pos + 1) n (gets + 1)
           simp only [List.length_cons]; omega
+
+end TypedLoad
+
+namespace TypedLoad
+
+/-- with the depth limit the fuel needed is a constant of the code, not a function of the file -/
+theorem load_ne_oof_depth (g : Graph) (tol : Bool) :
+    ∀ (fuel : Nat) (chain : List Nat) (k : Nat), chain.length ≤ maxNest →
+      maxNest + 1 ≤ fuel + chain.length → load g tol fuel chain k ≠ .oof := by
+  intro fuel
+  induction fuel with
+  | zero => intro chain k h1 h2; omega
+  | succ fuel ih =>
+    intro chain k h1 h2
+    unfold load
+    split
+    · simp
+    · split
+      · simp
+      rename_i hlen
+      split
+      · simp
+      · simp
+      · rename_i tag fields hg
+        apply fold_ne g tol (load g tol fuel (k :: chain)) .oof (fieldOutcome_ne_oof g tol) fields (.ok ()) (by simp)
+        intro f _
+        apply ih
+        · simp only [List.length_cons]; omega
+        · simp only [List.length_cons]; omega
+
+theorem apFold_ne (ld : Nat → Out Unit) (bad : Out Unit) (vals : List Nat) (acc : Out Unit)
+    (hacc : acc ≠ bad) (h : ∀ v, ld v ≠ bad) :
+    vals.foldl (fun acc v => match acc with | .ok _ => ld v | o => o) acc ≠ bad := by
+  induction vals generalizing acc with
+  | nil => exact hacc
+  | cons v vals ih =>
+    simp only [List.foldl_cons]
+    apply ih
+    cases acc with
+    | ok u => exact h v
+    | err => exact hacc
+    | panic => exact hacc
+    | oof => exact hacc
+
+theorem apLoad_ne_bad (g : List AObj) : ∀ (d k : Nat), apLoad g d k ≠ .panic ∧ apLoad g d k ≠ .oof := by
+  intro d
+  induction d with
+  | zero =>
+    intro k
+    unfold apLoad
+    split <;> simp
+  | succ d ih =>
+    intro k
+    unfold apLoad
+    split
+    · simp
+    · simp
+    · simp
+    · exact ⟨apFold_ne _ .panic _ _ (by simp) (fun v => (ih v).1), apFold_ne _ .oof _ _ (by simp) (fun v => (ih v).2)⟩
 
 end TypedLoad
